@@ -80,6 +80,12 @@ type c18Conn struct {
 	Addr   string     `json:"addr"`
 	Secret int        `json:"secret"` // 0: none configured, 1: secret A, 2: secret B, 3: the rotating secret (one buffer whose content is overwritten in place), 4: an empty non-nil slice (= none configured)
 	Rotate bool       `json:"rotate"` // before this connection the rotating secret's buffer is overwritten in place with new content
+	// NilAddr: the server connection is created without a peer address and learns it from the first datagram
+	NilAddr bool `json:"niladdr,omitempty"`
+	// Tenant: the listener configuration carries no secret and a GetConfigForClient callback that returns
+	// one Config object shared by all such connections of the case with the same Secret; that object
+	// carries the secret (or none: every connection still draws its own)
+	Tenant bool `json:"tenant,omitempty"`
 	Hellos []c18Hello `json:"hellos"`
 }
 
@@ -137,6 +143,8 @@ func c18Run(c c18Case) (sig, msg string, nontrivial bool) {
 			return "honest-failed", "priming handshake left no session", false
 		}
 	}
+	tenants := map[int]*Config{}
+	var tOps int64
 	for ci, cn := range c.Conns {
 		secretID := cn.Secret % 5
 		secretBytes := [][]byte{nil, c18Secrets[1], c18Secrets[2], rotating, {}}[secretID]
@@ -161,8 +169,24 @@ func c18Run(c c18Case) (sig, msg string, nontrivial bool) {
 		if !vfIsECDHE(c.Suite) {
 			ucfg.ClientAuth = NoClientCert
 		}
+		tOpsBase := atomic.LoadInt64(&tOps)
+		if cn.Tenant {
+			tn := tenants[cn.Secret%5]
+			if tn == nil {
+				tn = ucfg.Clone()
+				tn.CookieSecret = secretBytes // the application's buffer itself (rotated in place)
+				tsig, tenc := p.SrvSig, p.SrvEnc
+				tsig.PrivateKey = vfNewCountKey(p.SrvSig.PrivateKey.(*sm2.PrivateKey), &tOps)
+				tenc.PrivateKey = vfNewCountKey(p.SrvEnc.PrivateKey.(*sm2.PrivateKey), &tOps)
+				tn.Certificates = []Certificate{tsig, tenc}
+				tenants[cn.Secret%5] = tn
+			}
+			ucfg.CookieSecret = nil
+			ucfg.GetConfigForClient = func(*ClientHelloInfo) (*Config, error) { return tn, nil }
+		}
 		pcfg := &Config{Time: vfTime, InsecureSkipVerify: true, CipherSuites: []uint16{c.Suite}, Certificates: []Certificate{p.CliSig, p.CliEnc}}
 		vfPeerClientAddr = cn.Addr
+		vfPeerServerNilAddr = cn.NilAddr
 		var verr string
 		var vsig string
 		fail := func(s, f string, a ...interface{}) {
@@ -217,7 +241,7 @@ func c18Run(c c18Case) (sig, msg string, nontrivial bool) {
 					return err
 				}
 				pc.flush()
-				opsBefore := atomic.LoadInt64(&keyOps)
+				opsBefore := atomic.LoadInt64(&keyOps) + atomic.LoadInt64(&tOps) - tOpsBase
 				msgIn, err := pc.readHandshake(nil)
 				if err != nil {
 					return fmt.Errorf("hello %d: %w", hi, err)
@@ -262,8 +286,8 @@ func c18Run(c c18Case) (sig, msg string, nontrivial bool) {
 							fail("amplification", "the answer to hello %d has %d bytes, the request %d", hi, len(resp[0]), reqLen)
 						}
 					}
-					if atomic.LoadInt64(&keyOps) != 0 {
-						fail("key-operation-before-cookie", "%d private-key operations before a valid cookie was received", atomic.LoadInt64(&keyOps))
+					if n := atomic.LoadInt64(&keyOps) + atomic.LoadInt64(&tOps) - tOpsBase; n != 0 {
+						fail("key-operation-before-cookie", "%d private-key operations before a valid cookie was received", n)
 					}
 					if h.Silent {
 						pc.pconn.SetReadDeadline(time.Now().Add(64 * time.Second))
@@ -313,6 +337,7 @@ func c18Run(c c18Case) (sig, msg string, nontrivial bool) {
 			return nil
 		}, nil)
 		vfPeerClientAddr = ""
+		vfPeerServerNilAddr = false
 		if r.UPanic != "" {
 			return "panic", r.UPanic, nontrivial
 		}
@@ -392,6 +417,19 @@ func c18Catalogue(suite uint16) []c18Case {
 	add(c18Conn{Addr: "10.0.0.1:1000", Secret: 1, Hellos: []c18Hello{b}}, c18Conn{Addr: "10.0.0.1:1000", Secret: 2, Hellos: []c18Hello{prev}})
 	add(c18Conn{Addr: "10.0.0.1:1000", Secret: 0, Hellos: []c18Hello{b}}, c18Conn{Addr: "10.0.0.1:1000", Secret: 0, Hellos: []c18Hello{prev}})
 	add(c18Conn{Addr: "10.0.0.1:1000", Secret: 1, Hellos: []c18Hello{b}}, c18Conn{Addr: "10.0.0.1:1000", Secret: 1, Hellos: []c18Hello{prev}}) // same everything: valid
+	// a server created without a peer address (learnt from the first datagram): the cookie is bound to the learnt address
+	for _, sec := range []int{0, 1} {
+		add(c18Conn{Addr: "10.0.0.1:1000", Secret: sec, NilAddr: true, Hellos: []c18Hello{b, echo}})
+		add(c18Conn{Addr: "10.0.0.1:1000", Secret: sec, NilAddr: true, Hellos: []c18Hello{b}}, c18Conn{Addr: "10.0.0.9:1000", Secret: sec, NilAddr: true, Hellos: []c18Hello{prev}})
+		add(c18Conn{Addr: "10.0.0.1:1000", Secret: sec, NilAddr: true, Hellos: []c18Hello{b}}, c18Conn{Addr: "10.0.0.9:1000", Secret: sec, Hellos: []c18Hello{prev}})
+		add(c18Conn{Addr: "10.0.0.1:1000", Secret: sec, Hellos: []c18Hello{b}}, c18Conn{Addr: "10.0.0.1:1001", Secret: sec, NilAddr: true, Hellos: []c18Hello{prev}})
+	}
+	// a per-client configuration object shared by the connections (GetConfigForClient), with and without a secret
+	for _, sec := range []int{0, 1, 4} {
+		add(c18Conn{Addr: "10.0.0.1:1000", Secret: sec, Tenant: true, Hellos: []c18Hello{b, echo}}, c18Conn{Addr: "10.0.0.1:1000", Secret: sec, Tenant: true, Hellos: []c18Hello{prev, b, echo}},
+			c18Conn{Addr: "10.0.0.1:1000", Secret: sec, Tenant: true, Hellos: []c18Hello{prev}})
+		add(c18Conn{Addr: "10.0.0.1:1000", Secret: sec, Tenant: true, Hellos: []c18Hello{b}}, c18Conn{Addr: "10.0.0.1:1000", Secret: sec, Hellos: []c18Hello{prev}})
+	}
 	// split-shift: two (address, parameters) pairs with the same concatenation
 	h1 := c18BaseHello()
 	h1.Vers = 0x3001
@@ -504,6 +542,8 @@ func TestVF_C18(t *testing.T) {
 				h.Silent = j == nh-1 && rapid.IntRange(0, 3).Draw(t, "silent") == 0
 				cn.Hellos = append(cn.Hellos, h)
 			}
+			cn.NilAddr = rapid.IntRange(0, 4).Draw(t, "niladdr") == 0
+			cn.Tenant = rapid.IntRange(0, 4).Draw(t, "tenant") == 0
 			c.Conns = append(c.Conns, cn)
 		}
 		sig, msg, nt := c18Run(c)
